@@ -40,6 +40,7 @@ Definition FL (t d : Uint63.int) (on : bool) : event := EForceLoad (n_of_int t) 
 Definition SS (d : Uint63.int) : event := EShiftSecret (n_of_int d).
 Definition SP (p : N) (d : Uint63.int) : event := EShiftPeerCookie p (n_of_int d).
 Definition SH (p : N) (d : Uint63.int) : event := EShiftHs p (n_of_int d).
+Definition SK (t : Uint63.int) (k : N) : event := ESetIdentity (n_of_int t) k.
 
 Definition OD (kind ip port idx peer body mac2 : N) (opens wrong_fail : bool) (epoch cip cport : N) : oobs :=
   {| o_kind := kind; o_to := (ip, port); o_idx := idx; o_peer := peer; o_body := body; o_mac2 := mac2;
@@ -149,7 +150,7 @@ Fixpoint check_cases (ks : list case) (idx : N) : list (N * N * N) :=
     5 consumed not under load; 6 payload rejected; 7 cookie reply consumed; 8 cookie reply rejected;
     9 transport authentic; 10 transport rejected; 11 device initiation MAC2 zero;
     12 device initiation with MAC2; 13 TUN packet without initiation; 14 secret refreshed;
-    15 response with MAC2] *)
+    15 response with MAC2; 16 identity changed (private_key=)] *)
 
 Fixpoint bump (l : list N) (i : nat) : list N :=
   match l, i with
@@ -180,6 +181,7 @@ Definition classify (st : dstate) (e : event) : list nat :=
             if list_eqb N.eqb (changed_peers (d_peers st) (d_peers st')) [] then [6%nat]
             else if snd (is_under_load st now q) then [4%nat] else [5%nat]
         end
+  | ESetIdentity _ _ => [16%nat]
   | ETun _ _ _ _ =>
       match outs with
       | OInit _ _ _ _ TZero :: _ => [11%nat]
@@ -196,7 +198,7 @@ Fixpoint stats_steps (st : dstate) (tr : list (event * sobs)) (acc : list N) : l
   end.
 
 Definition stats (ks : list case) : list N :=
-  fold_left (fun acc k => stats_steps (init_state k) (c_steps k) acc) ks (repeat 0 16).
+  fold_left (fun acc k => stats_steps (init_state k) (c_steps k) acc) ks (repeat 0 17).
 
 (* what the model predicts, step by step (used when looking into a mismatch) *)
 Fixpoint predict (st : dstate) (tr : list (event * sobs)) : list (list oobs * list N * N) :=
